@@ -62,6 +62,8 @@ const OPS = {
   alias2: { arity: 1, decl: (n, s) => `type ${n}x = ${s[0]};\ntype ${n} = ${n}x;`, ref: true, ctors: (c) => c[0], samples: (x) => x[0] },
   paren: { arity: 1, src: (s) => `(${s[0]})`, ctors: (c) => c[0], samples: (x) => x[0] },
   nonNull: { arity: 1, src: (s) => `NonNullable<${s[0]}>`, ctors: (c) => c[0].filter((k) => k !== 'null'), samples: (x) => x[0].filter((v) => v !== null) },
+  nullFirst3: { arity: 2, src: (s) => `null | ${s[0]} | ${s[1]}`, ctors: (c) => ['null'].concat(c[0], c[1]), samples: (x) => [null].concat(x[0], x[1]) },
+  nullMid3: { arity: 2, src: (s) => `${s[0]} | undefined | ${s[1]} | null`, ctors: (c) => c[0].concat(c[1], ['null']), samples: (x) => x[0].concat(x[1], [null]) },
   orNull: { arity: 1, src: (s) => `${s[0]} | null`, ctors: (c) => c[0].concat(['null']), samples: (x) => x[0].concat([null]) },
   arrElem: { arity: 1, decl: (n, s) => `type ${n} = (${s[0]})[];`, src: (s, n) => `${n}[number]`, ctors: (c) => c[0], samples: (x) => x[0] },
   tupleElem0: { arity: 2, decl: (n, s) => `type ${n} = [${s[0]}, ${s[1]}];`, src: (s, n) => `${n}[0]`, ctors: (c) => c[0], samples: (x) => x[0] },
